@@ -46,6 +46,8 @@ def mk(c, vs, form='float'):
     vs = [np.asarray(v, dtype=np.float64) for v in vs]
     if form == 'int_array':
         vs = [v.astype(np.int64) for v in vs]
+    elif form in ('uint8', 'int8'):
+        vs = [v.astype(form) for v in vs]
     elif form == 'int_list' and len(vs) == 1:
         return C([int(t) for t in vs[0]])
     elif form == 'list' and len(vs) == 1:
@@ -76,8 +78,11 @@ def run_arith(ctx, p):
     A, B = [np.asarray(v, float) for v in p['A']], [np.asarray(v, float) for v in p['B']]
     sig = dict(api='%s.%s' % (c, op), m='1' if len(A) == 1 else 'M')
     C = getattr(S(), c)
+    form = p.get('form', 'float')
+    if form != 'float':
+        sig['element_type'] = form
     try:
-        x, y = mk(c, A), mk(c, B)
+        x, y = mk(c, A, form), mk(c, B, form)
         if op == 'add':
             r, want = x + y, [a + b for a, b in zip(A, B)]
         elif op == 'sub':
@@ -193,6 +198,14 @@ def run_inertia(ctx, p):
             dd = rel(r.data[0], wv, float(np.linalg.norm(A) * np.linalg.norm(x))) if ok else math.inf
             ctx.judge('inertia', dd <= TOL, dict(sig, kind='product_wrong', right=cname, got=type(r).__name__),
                       lambda: 'I * %s = %s %s, expected %s %s' % (cname, type(r).__name__, core.short(getattr(r, 'data', r), 200), rcls, wv))
+            # ... and for an operand holding several values (N = 6 included: a 6 x 6 stack of row vectors is not the matrix of columns)
+            for nv in p.get('multi', []):
+                xs = [x * (k_ + 1) + np.roll(x, k_) for k_ in range(nv)]
+                rm = J * mk(cname, xs)
+                okm = type(rm).__name__ == rcls and len(rm.data) == nv
+                dm = max(rel(g_, ref.f64(ref.mm(A, v_.reshape(6, 1))).reshape(-1), float(np.linalg.norm(A) * np.linalg.norm(v_))) for g_, v_ in zip(rm.data, xs)) if okm else math.inf
+                ctx.judge('inertia', dm <= TOL, dict(sig, kind='product_wrong', right=cname, got=type(rm).__name__, values='6' if nv == 6 else 'M'),
+                          lambda: 'I * %s holding %d values = %s %s: value by value it should be I x_i' % (cname, nv, type(rm).__name__, core.short(getattr(rm, 'data', rm), 300)))
     except Exception as e:
         ctx.bad('inertia', dict(sig, kind='raised', exc=type(e).__name__, where=_where(e)), 'spatial inertia case raised %r' % e)
         return
@@ -306,6 +319,11 @@ def run(ctx):
         c = SV[rng.integers(4)]
         m = 1 if rng.random() < 0.6 else int(rng.integers(2, 5))
         drive(RUNNERS, ctx, 'arith', dict(cls=c, op=['add', 'sub', 'neg'][rng.integers(3)], A=[vec6(rng) for _ in range(m)], B=[vec6(rng) for _ in range(m)]))
+        if rng.random() < 0.15:      # whole numbers held in a narrow / unsigned integer array: the sum, difference or negative may not fit the type
+            ft = ['uint8', 'int8'][rng.integers(2)]
+            lo_, hi_ = (0, 256) if ft == 'uint8' else (-127, 128)
+            drive(RUNNERS, ctx, 'arith', dict(cls=c, op=['add', 'sub', 'neg'][rng.integers(3)], form=ft, A=[[int(t) for t in rng.integers(lo_, hi_, size=6)] for _ in range(m)],
+                                              B=[[int(t) for t in rng.integers(lo_, hi_, size=6)] for _ in range(m)]))
     gi = 0
     for c1, c2 in itertools.product(SV, SV):
         for op in ('add', 'sub'):
@@ -346,7 +364,7 @@ def run(ctx):
             return gen.logu(rng, 1e-3, 1e3), (gen.vec(rng, 3, 1e-3, 1e2) if rng.random() < 0.9 else np.zeros(3)), A @ A.T + 1e-6 * np.eye(3)
         m, c, I = body()
         m2, c2, I2 = body()
-        drive(RUNNERS, ctx, 'inertia', dict(m=m, c=c, I=I, m2=m2, c2=c2, I2=I2, x=vec6(rng)))
+        drive(RUNNERS, ctx, 'inertia', dict(m=m, c=c, I=I, m2=m2, c2=c2, I2=I2, x=vec6(rng), multi=[[2, 6], [3, 6], [6], []][rng.integers(4)]))
     for _ in range(ctx.scale(1500, 25000)):
         c = SV[rng.integers(4)]
         nx = 1 if rng.random() < 0.6 else int(rng.integers(2, 8))
